@@ -29,6 +29,9 @@ BUNDLES = {
     'A': dict(src='dtn://src/', ts=(T, 3), payload=admin_payload(1), mark=b'\x04', mark_crc=1, dest=NODE, flags=B.FLAG_ADMIN),
     # the extension block of the first fragment carries reserved block-flag bits (and a CRC over them)
     'V': dict(src='dtn://vsrc/', ts=(T, 1), payload=b'GHIJKL', mark=b'\x06', mark_crc=1, mark_flags=0x28),
+    # the extension block of the first fragment is of a type the node knows (hop count) but carries zero-length
+    # data (under CRC-16): whatever it means, it is the first fragment's block and is delivered as it came
+    'U': dict(src='dtn://usrc/', ts=(T, 1), payload=b'MNOPQR', mark=b'', mark_crc=1, mark_type=10),
     # a bundle in transit (for another node): forwarded, never delivered here
     'T': dict(src='dtn://src/', ts=(T, 7), payload=b'transit', mark=b'\x07', mark_crc=1, dest='dtn://far/x', transit=True),
 }
@@ -40,7 +43,7 @@ def frag(name, lo, hi):
                report_to='dtn:none', ts=b['ts'], lifetime=3600000, frag_offset=lo, total_adu=len(b['payload']))
     blocks = []
     if lo == 0:
-        blocks.append(dict(type=200, num=2, flags=b.get('mark_flags', 0), crc_type=b['mark_crc'], data=b['mark']))
+        blocks.append(dict(type=b.get('mark_type', 200), num=2, flags=b.get('mark_flags', 0), crc_type=b['mark_crc'], data=b['mark']))
     blocks.append(dict(type=1, num=1, flags=0, crc_type=2, data=b['payload'][lo:hi]))
     return dict(primary=pri, blocks=blocks)
 
@@ -49,7 +52,7 @@ def whole(name):
     b = BUNDLES[name]
     pri = dict(flags=b.get('flags', 0), crc_type=1, dest=b.get('dest', 'dtn://node/app'), src=b['src'], report_to='dtn:none',
                ts=b['ts'], lifetime=3600000)
-    return dict(primary=pri, blocks=[dict(type=200, num=2, flags=b.get('mark_flags', 0), crc_type=b['mark_crc'], data=b['mark']),
+    return dict(primary=pri, blocks=[dict(type=b.get('mark_type', 200), num=2, flags=b.get('mark_flags', 0), crc_type=b['mark_crc'], data=b['mark']),
                                     dict(type=1, num=1, flags=0, crc_type=2, data=b['payload'])])
 
 
@@ -68,6 +71,7 @@ def alphabet():
         ('W[0,3)', 'W', (0, 3), frag('W', 0, 3)), ('W[3,6)', 'W', (3, 6), frag('W', 3, 6)),
         ('V[0,3)', 'V', (0, 3), frag('V', 0, 3)), ('V[3,6)', 'V', (3, 6), frag('V', 3, 6)),
         ('T', 'T', None, whole('T')),
+        ('U[0,3)', 'U', (0, 3), frag('U', 0, 3)), ('U[3,6)', 'U', (3, 6), frag('U', 3, 6)), ('U', 'U', None, whole('U')),
     ]
 
 
@@ -144,7 +148,7 @@ class FragWorld(BpWorld):
                 continue
             seen[name] = seen.get(name, 0) + 1
             payload = [bytes.fromhex(b[2]) for b in d['blocks'] if b[0] == 1]
-            marks = [bytes.fromhex(b[2]) for b in d['blocks'] if b[0] == 200]
+            marks = [bytes.fromhex(b[2]) for b in d['blocks'] if b[0] == BUNDLES[name].get('mark_type', 200)]
             if payload != [BUNDLES[name]['payload']]:
                 out.append(self.v('reassembled-payload-differs', dict(bundle=name), 'delivered %r, original %r' % (payload, BUNDLES[name]['payload'])))
             if marks != [BUNDLES[name]['mark']]:
@@ -351,6 +355,11 @@ def scenarios(tier):
         out.append(dict(name='transit+reserved-flags/first-%s' % ALPHA[first][0], kind='graph',
                         params=dict(max_depth=depth + 1, letters=tr, prefix=[first]), dev_bound=0, use_snapshot=False,
                         liveness=False, max_states=400000, weight=3))
+    kn = [19, 20, 21, 3]
+    for first in kn[:3]:
+        out.append(dict(name='known-type-empty-block/first-%s' % ALPHA[first][0], kind='graph',
+                        params=dict(max_depth=depth, letters=kn, prefix=[first]), dev_bound=0, use_snapshot=False,
+                        liveness=False, max_states=400000, weight=3))
     out.append(dict(name='two-agents', kind='enum', runner='run_two_agents', params=dict(name='two-agents'), weight=3))
     for part in range(4):
         out.append(dict(name='sizes-%d/4' % (part + 1), kind='enum', runner='run_sizes', params=dict(name='sizes-%d/4' % (part + 1), part=part, parts=4), weight=6))
@@ -370,6 +379,7 @@ ASSUMPTIONS = [
     'six-octet payloads; fragmentations {[0,2),[2,4),[4,6)}, {[0,3),[2,5),[4,6)} and {[0,3),[3,6)} of X may be mixed; two look-alike bundles',
     'arrival histories of at most 4 (quick) / 5 (thorough) elements over the whole alphabet, 6 / 7 over X alone; idle callbacks interleaved in every order',
     'overlapping fragments of one bundle carry consistent octets',
+    'a fragmented bundle whose first-fragment extension block is a hop-count block with zero-length data under CRC-16',
     'a bundle for another node (forwarded) interleaved with the fragments of X under overlapping receive routes; a fragmented bundle whose first-fragment extension block has reserved block-flag bits set under CRC-16',
     'sizes: application data units of 65535, 65536, 65537, 66000 and 131073 octets in two or three fragments cut at and next to 64 KiB, every arrival order',
     'long gaps: 0, 1, 255, 256, 257, 300 or 1100 other bundles between the completion of X and repeats of its fragments, or between its two halves',
